@@ -327,12 +327,13 @@ def C14(tier, seed):
                                                   "C14.same_loaded_features")))
     INT_OBL = ("C14.reimport_accepted", "C14.same_nodes", "C14.same_edges", "C14.same_times", "C14.same_positions",
                "C14.same_track_ids", "C14.same_lineage_ids", "C14.same_segmentation", "C14.same_scale",
-               "C14.same_registry", "C14.same_loaded_features")
+               "C14.same_registry", "C14.same_loaded_features", "C14.same_loaded_edge_features")
     ivariants = [("", dict(seg=False)), (":per_axis_pos", dict(seg=False, multi_pos=True)),
                  (":numpy_positions", dict(seg=False, pos_ndarray=True)),
                  (":symbolic_scale", dict(seg=False, scale="symbolic", N=2)),
                  (":descending_node_order", dict(seg=False, node_order="reversed")),
                  (":seg", dict(seg=True, shape=(2, 1, 2), N=2, pos_ndarray=True)),
+                 (":seg:iou_enabled", dict(seg=True, shape=(3, 1, 1), N=3, iou=True)),
                  (":seg:symbolic_scale:uint8", dict(seg=True, shape=(2, 1, 2), N=2, scale="symbolic", seg_dtype="uint8")),
                  (":3D:numpy_positions", dict(seg=False, shape=(3, 1, 1, 1), pos_ndarray=True, N=2 if tier == "quick" else 3))]
     for name, extra in ivariants:
